@@ -1,6 +1,7 @@
 package harness
 
 import (
+	"strings"
 	"errors"
 	"fmt"
 	"math/rand"
@@ -166,6 +167,19 @@ func runCfg(rep *Report, rng *rand.Rand, n int, exhaustive bool) error {
 		}
 		if impl[i] != "ok" && model == impl[i] && off != "1" {
 			rep.violation(Finding{Property: "C16", Clause: "names-wrong-field", Input: reqs[i], Impl: impl[i], Model: ans[i]})
+		}
+		// whatever the rule list says: the field the implementation names must be one that breaks a documented rule
+		if k := strings.Index(ans[i], "offenders="); k >= 0 && strings.HasPrefix(impl[i], "err ") && !strings.HasPrefix(impl[i], "err ?") {
+			named := strings.TrimPrefix(impl[i], "err ")
+			ok := false
+			for _, f := range strings.Split(strings.Fields(ans[i][k+len("offenders="):] + " -")[0], ",") {
+				if f == named {
+					ok = true
+				}
+			}
+			if !ok {
+				rep.violation(Finding{Property: "C16", Clause: "names-a-field-that-does-not-offend", Input: reqs[i], Impl: impl[i], Model: ans[i]})
+			}
 		}
 		if impl[i] != "ok" && contacted[i] != 0 {
 			rep.violation(Finding{Property: "C16", Clause: "store-contacted-before-validation", Input: reqs[i], Impl: impl[i]})
